@@ -700,6 +700,8 @@ impl Handler {
                 node = %request_call.contact(),
                 "Authentication response already sent. Dropping session.",
             );
+            // The request is no longer active; stop expecting a response for it.
+            self.remove_expected_response(src_address);
             self.fail_request(request_call, RequestError::InvalidRemotePacket, true)
                 .await;
             return;
@@ -727,6 +729,8 @@ impl Handler {
             Ok(v) => v,
             Err(e) => {
                 error!(error = ?e, "Could not generate a session");
+                // The request is no longer active; stop expecting a response for it.
+                self.remove_expected_response(src_address);
                 self.fail_request(request_call, RequestError::InvalidRemotePacket, true)
                     .await;
                 return;
